@@ -91,22 +91,38 @@ class InstrumentedLock:
         self.name = name
         self.blocked = blocked          # call id -> lock name it is (or was last) blocked on
 
+    owner = None        # call id (or "main") of the last successful acquire that has not been released
+
+    def _got(self):
+        k = _current_call()
+        self.owner = "main" if k is None else k
+        return True
+
     def acquire(self, blocking=True, timeout=-1):
         if not blocking:
-            return self.real.acquire(False)
+            return self.real.acquire(False) and self._got()
         if self.real.acquire(False):
-            return True
+            return self._got()
         k = _current_call()
         if k is not None:
             self.blocked[k] = self.name
         try:
-            return self.real.acquire(True, timeout)
+            return self.real.acquire(True, timeout) and self._got()
         finally:
             if k is not None:
                 self.blocked.pop(k, None)
 
     def release(self):
+        self.owner = None
         self.real.release()
+
+    def force_open(self):
+        """tear-down only: break open a lock that nobody will release"""
+        try:
+            self.owner = None
+            self.real.release()
+        except RuntimeError:
+            pass
 
     def locked(self):
         return self.real.locked()
@@ -198,6 +214,23 @@ def run(inp):
     def state_of(k):
         return real_state(alias[k])
 
+    leaks = []
+
+    def leaked(lock):
+        """The lock is held although the call that took it has ended: nobody will ever release it."""
+        o = lock.owner
+        return lock.real.locked() and o is not None and o != "main" and o in results
+
+    def stuck_on_leak(r):
+        name = blocked.get(r)
+        lock = send_lock if name == "send" else recv_lock if name == "receive" else None
+        if lock is not None and leaked(lock):
+            note = (r, name, lock.owner)
+            if note not in leaks:
+                leaks.append(note)
+            return True
+        return False
+
     def settle_grant(k, limit):
         """The lock was released: one of the waiters of k's kind gets it; bind that real thread to k."""
         cands = [j for j in waiting if kind_of[j] == kind_of[k]]
@@ -211,6 +244,8 @@ def run(inp):
                         alias[k], alias[j] = alias[j], alias[k]
                     waiting.discard(k)
                     return state_of(k)
+            if all(stuck_on_leak(alias[j]) for j in cands):  # the lock was never released: nobody will get it
+                return state_of(k)
             time.sleep(0.002)
         return state_of(k)
 
@@ -266,14 +301,24 @@ def run(inp):
                 r = alias[k]
                 gates.ok[r] = bool(ok)
                 gates.release[r].set()
-                threads[r].join(WATCHDOG)
+                deadline = time.monotonic() + WATCHDOG
+                while threads[r].is_alive() and time.monotonic() < deadline and not stuck_on_leak(r):
+                    threads[r].join(0.01)
         final = [[k, settle(k, WATCHDOG)] for k in order]
         free = [0 if send_lock.locked() else 1, 0 if recv_lock.locked() else 1]
     finally:
         for k in order:
             gates.release[k].set()
-        for k in order:
-            threads[k].join(1.0)
+        # a lock that nobody will release is broken open so that every thread can leave
+        for _ in range(50):
+            alive = [k for k in order if threads[k].is_alive()]
+            if not alive:
+                break
+            for lock in (send_lock, recv_lock):
+                if leaked(lock) or (lock.real.locked() and all(blocked.get(k) for k in alive)):
+                    lock.force_open()
+            for k in alive:
+                threads[k].join(0.05)
         try:
             if not send_lock.locked():
                 client.close()
@@ -281,10 +326,12 @@ def run(inp):
             pass
         peer.close()
     run.last_trace = trace
+    run.last_leaks = list(leaks)
     return [[1] * len(labels), final, free[0], free[1]]
 
 
 run.last_trace = []
+run.last_leaks = []
 
 
 # ---- generation: a Python mirror of ClientLocks.step, used ONLY to produce enabled, realisable histories
